@@ -150,6 +150,14 @@ func (d *c14Drv) defaults(spare bool) (http.Header, []hdrPair) {
 		}
 		h[key] = vs
 	}
+	if d.cases%6 == 4 { // a default header with many values (17, 19, 21, 33, 35: lengths a copying idiom does not size exactly)
+		k := []int{17, 19, 33, 35, 21}[d.cases/6%5]
+		vs := make([]string, k)
+		for j := range vs {
+			vs[j] = fmt.Sprintf("many-%d", j)
+		}
+		h["X-Many"] = vs
+	}
 	return h, hdrList(h)
 }
 
@@ -368,6 +376,9 @@ func (d *c14Drv) jsonCase(n int, spare bool, viaEncoder bool) {
 			t.Header = http.Header{}
 			for j := 0; j < nh; j++ {
 				key := []string{"D", "X-Def", "x-def", "Accept", "X-Own", "x-OWN"}[d.r.Intn(6)]
+				if _, many := defHdr["X-Many"]; many && j == 0 {
+					key = "X-Many" // every target adds values of its own to the default key with many values
+				}
 				if _, ok := t.Header[key]; ok {
 					continue
 				}
